@@ -1,6 +1,7 @@
 package p2ph
 
 import (
+	"bytes"
 	"context"
 	"crypto/sha256"
 	"errors"
@@ -248,6 +249,9 @@ func runSubscriberGroup(t *testing.T, group []map[string]any, withVerifier, metr
 		chain := vh.NewChain(networkID, 1, len(group)+5, time.Now().Add(-time.Hour), time.Second, 0)
 		var recs []C11Rec
 		var mids []string
+		var lastAccepted []byte      // the bytes of the last remote message that was accepted
+		var lastAcceptedHdr *vh.Header
+		again := 0
 		for gi, c := range group {
 			in := mbt.Map(c, "in")
 			id := mbt.Int(c, "id")
@@ -266,6 +270,14 @@ func runSubscriberGroup(t *testing.T, group []map[string]any, withVerifier, metr
 				hdr.DecodePanic = true
 			}
 			data, _ = hdr.MarshalBinary()
+			if mbt.Bool(in, "again") && lastAccepted != nil {
+				// the very header that was accepted a moment ago arrives once more in a distinct message (same header, other
+				// bytes: trailing white space; the message id is the hash of the bytes) — this time the verifier refuses it,
+				// as the Syncer's does with a header it knows already
+				again++
+				hdr = lastAcceptedHdr
+				data = append(append([]byte{}, lastAccepted...), bytes.Repeat([]byte(" "), again)...)
+			}
 			switch payload {
 			case "undecodable":
 				data = []byte(fmt.Sprintf("\x00\x01garbage-%d{{{", id))
@@ -334,6 +346,9 @@ func runSubscriberGroup(t *testing.T, group []map[string]any, withVerifier, metr
 			dmu.Lock()
 			obs.Relayed = relayed[mid]
 			dmu.Unlock()
+			if payload == "valid" && obs.Verdict == "accept" {
+				lastAccepted, lastAcceptedHdr = data, hdr
+			}
 			obs.Crashed = obs.Crashed || crashed
 			obs.Final = obs.Verdict
 			recs = append(recs, C11Rec{Tr: id, In: in, Obs: obs})
@@ -392,6 +407,8 @@ func TestSubscriber(t *testing.T) {
 		// and right before them the well-formed messages that the verifier refused
 		rank := func(c map[string]any) int {
 			switch {
+			case mbt.Bool(mbt.Map(c, "in"), "again"):
+				return 3 // the header of an accepted message once more, in a distinct message, now refused by the verifier
 			case mbt.Str(mbt.Map(c, "predicted"), "verdict") == "accept":
 				return 2
 			case mbt.Str(mbt.Map(c, "in"), "payload") == "valid":
